@@ -294,6 +294,7 @@ func runC07(r *Run) {
 	// --- byte classes
 	r.checkByteClasses(P, tr, fns, setErr)
 	r.checkStringCodec(P, tr, fns, setErr, checkErr)
+	r.checkTrailingProgress(P, tr)
 
 	// --- number tokens
 	r.checkNumberRoute(P, fns)
